@@ -4,12 +4,34 @@ CHECK = {
     "pkg": "internal/index",
     "level": "exploration",
     "technique": ("differential property testing of index.SearchStreams against an unoptimised reference matcher "
-                  "(plain binaryregexp search per representation, harness/vq) over generated expressions, payload layouts and converter outputs"),
-    "rule": "TODO",
-    "level_text": "TODO",
-    "level_note": "TODO",
-    "assumptions": [],
+                  "(plain binaryregexp search per representation, harness/vq EvalNF/SeqStep) over generated expressions, "
+                  "payload layouts and converter outputs written into real index files"),
+    "rule": ("one case = a population: a pool of 2-5 payload expressions (vregex syntax trees glued to literal prefixes/suffixes, "
+             "fixed-length class runs with a literal suffix, pure literals, named captures and @v@ references), 0-3 fake converters, "
+             "1-6 streams whose raw payload and cached converter outputs are assembled from the expressions (members laid out in the "
+             "order of a query's sequences, near misses, repeated literal prefixes/suffixes without a full match, filler; cut into "
+             "chunks, interleaving of the two directions perturbed) and written with index.Writer, and 2-5 queries (AND of 1-3 "
+             "conditions, each a filter or a THEN sequence of <=3 filters over cdata/sdata/data, negation of single filters and of the "
+             "last element, selector none/.none/.converter; several representations: no negated sequences). Oracle: set of ids "
+             "returned by index.SearchStreams(query.Parse(text).Conditions) == {s : vq.EvalNF(conditions, s)}. TestVerifC04Anchored "
+             "is the same over expressions with ^ $ \\A \\z \\b \\B. Non-trivial: some query uses an expression with an active shortcut "
+             "(literal prefix, constant suffix, fixed-length window) and selects some but not all streams, and a stream has >=2 "
+             "chunks; distinct = distinct (queries, payloads)."),
+    "level_text": ("generated-input differential search against a reference that uses no shortcut; decides the property only on the "
+                   "generated space (no sub-queries, no tags, one index file); no absence claim"),
+    "level_note": ("trusts harness/vq SeqStep/EvalNF (plain FindSubmatchIndex on the unshortened remainder, chunk rule at direction-run "
+                   "granularity, aggregation over representations: positive = some, negated = none) and the vregex member sampler; "
+                   "expressions are small (vregex MaxPaths 40) because regexanalysis.ConstantSuffix is exponential in alternations"),
+    "assumptions": [
+        "a fake ConverterAccess follows converters.cacheFile.DataForSearch: per-direction concatenation, cumulative sizes starting with {0,0}, one entry per non-empty chunk, wasCached=false for streams without output",
+        "all payload filters of a query carry the same converter selector and name an existing converter (other combinations are documented engine errors)",
+        "a variable is referenced only after the element that captures it in the same sequence; a named group that did not take part in the match has the empty value",
+        "negated sequences are not generated when several representations are searched (aggregation not defined by the statement)",
+        "duplicate ids in the result list are tolerated here (result listing is C02)",
+    ],
     "campaigns": [
-        {"test": "TestVerifC04", "checks": {"quick": 800, "thorough": 40000}},
+        {"test": "TestVerifC04", "checks": {"quick": 60000, "thorough": 1600000}, "timeout": {"quick": 600, "thorough": 3000}},
+        {"test": "TestVerifC04Anchored", "checks": {"quick": 16000, "thorough": 400000}, "timeout": {"quick": 600, "thorough": 3000}},
+        {"test": "TestVerifC04Fixed", "fixed": True, "checks": {"quick": 1, "thorough": 1}},
     ],
 }
